@@ -18,9 +18,11 @@ Proof. exact default_namer_fresh. Qed.
 Print Assumptions C15_fresh_names_exist.
 
 (** At every instant of every faulted run the source holds its complete old bytes, or -
-    only once the rename has taken effect - its complete new bytes. *)
+    only once the rename has taken effect - its complete new bytes.
+    ([in_try s0 = false]: the run starts outside the temp file's try block - true of [init d]
+    and of the state any completed rewrite ends in.) *)
 Theorem C15_source_old_or_new : forall nm F k pl src old s0 n,
-  fresh_namer nm -> lookup src (sd s0) = Some old ->
+  fresh_namer nm -> lookup src (sd s0) = Some old -> in_try s0 = false ->
   Forall (fun s => (nrep s = nrep s0 /\ lookup src (sd s) = Some old) \/
                    (nrep s = S (nrep s0) /\
                     exists nw, new_of k pl = Some nw /\ lookup src (sd s) = Some nw))
@@ -29,18 +31,24 @@ Proof. exact source_old_or_new. Qed.
 Print Assumptions C15_source_old_or_new.
 
 (** If the rewrite does not complete (it raises - formatting, serialisation, any write, the
-    temp file, the rename - or the process dies anywhere) the source is byte-for-byte intact. *)
+    temp file, the rename - or the process dies anywhere, including inside a clean-up path)
+    the source is byte-for-byte intact, and the ONLY name that can differ from the original
+    directory is the temp name, which was not an entry of it.  This is also everything a
+    kill, or a clean-up whose own os.remove failed, can leave behind. *)
 Theorem C15_failure_or_kill_leaves_source_intact : forall nm F k pl src old s0 n,
-  fresh_namer nm -> lookup src (sd s0) = Some old ->
+  fresh_namer nm -> lookup src (sd s0) = Some old -> in_try s0 = false ->
   outc (run_ops nm F (inplace_ops k pl src) n s0) <> Done ->
   lookup src (sd (final (run_ops nm F (inplace_ops k pl src) n s0))) = Some old /\
-  nrep (final (run_ops nm F (inplace_ops k pl src) n s0)) = nrep s0.
+  nrep (final (run_ops nm F (inplace_ops k pl src) n s0)) = nrep s0 /\
+  lookup (tmp_of nm s0 src) (sd s0) = None /\
+  forall q, q <> tmp_of nm s0 src ->
+    lookup q (sd (final (run_ops nm F (inplace_ops k pl src) n s0))) = lookup q (sd s0).
 Proof. exact failure_leaves_old. Qed.
 Print Assumptions C15_failure_or_kill_leaves_source_intact.
 
 (** Files other than the source and the temp file are never touched, at any instant. *)
 Theorem C15_others_untouched : forall nm F k pl src s0 n,
-  fresh_namer nm -> lookup src (sd s0) <> None ->
+  fresh_namer nm -> lookup src (sd s0) <> None -> in_try s0 = false ->
   Forall (fun s => forall q, q <> src -> q <> tmp_of nm s0 src ->
                              lookup q (sd s) = lookup q (sd s0))
          (all_states (run_ops nm F (inplace_ops k pl src) n s0)).
@@ -49,7 +57,7 @@ Print Assumptions C15_others_untouched.
 
 (** A successful rewrite leaves exactly the original entries, the source holding the new bytes. *)
 Theorem C15_success_same_entries : forall nm F k pl src s0 n,
-  fresh_namer nm -> lookup src (sd s0) <> None ->
+  fresh_namer nm -> lookup src (sd s0) <> None -> in_try s0 = false ->
   outc (run_ops nm F (inplace_ops k pl src) n s0) = Done ->
   exists nw, new_of k pl = Some nw /\
     forall q, lookup q (sd (final (run_ops nm F (inplace_ops k pl src) n s0)))
@@ -57,68 +65,52 @@ Theorem C15_success_same_entries : forall nm F k pl src s0 n,
 Proof. exact success_same_entries. Qed.
 Print Assumptions C15_success_same_entries.
 
-(** "A rewrite that fails by raising leaves no temporary file behind."
-    FULL STATEMENT - false of the code as it is:
-      forall nm F k pl src s0 n e, fresh_namer nm -> lookup src (sd s0) <> None ->
-        outc (run_ops nm F (inplace_ops k pl src) n s0) = Raised e ->
-        deq (sd (final (run_ops nm F (inplace_ops k pl src) n s0))) (sd s0).
-    Witness: fileformat on a two-line file whose second line references a missing key, no
-    injected fault at all.  The with block closes the NamedTemporaryFile(delete=False), nothing
-    removes it: the temp file (holding the first formatted line) stays in the directory. *)
-Theorem C15_raise_leaves_no_temp_refuted :
-  exists nm F k pl src s0 n e,
-    fresh_namer nm /\ lookup src (sd s0) <> None /\
-    outc (run_ops nm F (inplace_ops k pl src) n s0) = Raised e /\
-    ~ deq (sd (final (run_ops nm F (inplace_ops k pl src) n s0))) (sd s0).
-Proof.
-  exists default_namer, (fun _ => NoFault), Stream,
-         (mkplan true [Some "hello V
-"; None]), "a.txt",
-         (init [("a.txt", "hello {k}
-line2 {missing}
-")]), 0, EFormat.
-  split; [exact default_namer_fresh|]. split; [discriminate|]. split; [reflexivity|].
-  intros H. specialize (H (default_namer [("a.txt", "")] "")). vm_compute in H. discriminate.
-Qed.
-Print Assumptions C15_raise_leaves_no_temp_refuted.
+(** A rewrite that fails by RAISING leaves no temporary or partial file behind: the directory
+    has exactly the original entries with the original bytes.  For every fault assignment
+    (any number of raising primitives, also inside the clean-up paths) and every data failure,
+    with two exemptions, both stated:
+      [rmfail r = false]  no clean-up os.remove of the temp file itself raised ("the clean-up
+                          itself failed" - remove_temp_file logs it and the first error
+                          propagates; what is left then is bounded by the theorem above:
+                          the temp name only);
+      [stop r <> CloseSrc] the step that raised is not the close of the READ-ONLY source
+                          handle (StreamRewriter closes it after the try block and before
+                          move_temp_file; a failure there would leave the complete temp file -
+                          see C15_source_close_failure_residual; no such failure is generated
+                          by the harness, closing a read-only descriptor does not fail).
+    A run that ends by being killed is not a raise: see the theorem above. *)
+Theorem C15_raise_leaves_no_temp : forall nm F k pl src s0 n e,
+  fresh_namer nm -> lookup src (sd s0) <> None -> in_try s0 = false ->
+  outc (run_ops nm F (inplace_ops k pl src) n s0) = Raised e ->
+  rmfail (run_ops nm F (inplace_ops k pl src) n s0) = false ->
+  (forall kk, stop (run_ops nm F (inplace_ops k pl src) n s0) <> Some (kk, CloseSrc)) ->
+  deq (sd (final (run_ops nm F (inplace_ops k pl src) n s0))) (sd s0).
+Proof. exact raise_leaves_no_temp. Qed.
+Print Assumptions C15_raise_leaves_no_temp.
 
-(** The same, for every input: whenever formatting an item raises (text line or object
-    payload, any position, any number of chunks before it), with no other fault, the step
-    raises the formatting error, the source is intact, and the temp file - a name that was not
-    in the directory - is left behind. *)
-Theorem C15_format_error_leaves_temp : forall nm F k pl src old s0 n pre post,
-  fresh_namer nm -> lookup src (sd s0) = Some old ->
+(** the second exemption is needed (model of the code as it is): *)
+Theorem C15_source_close_failure_residual :
+  exists F pl,
+    let r := run_ops default_namer F (inplace_ops Stream pl "a.txt") 0 (init [("a.txt", "old")]) in
+    outc r = Raised (EInj 4) /\ rmfail r = false /\ stop r = Some (4, CloseSrc) /\
+    lookup "a.txt" (sd (final r)) = Some "old" /\ List.length (sd (final r)) = 2.
+Proof.
+  exists (fault_fun [(4, Raise)]), (mkplan true [Some "new"]). vm_compute. repeat split.
+Qed.
+Print Assumptions C15_source_close_failure_residual.
+
+(** In particular the former finding: whenever formatting an item raises (text line or object
+    payload, any position, any number of chunks before it) and nothing else fails, the step
+    raises the formatting error and the directory is exactly what it was. *)
+Theorem C15_format_error_leaves_nothing : forall nm F k pl src s0 n pre post,
+  fresh_namer nm -> lookup src (sd s0) <> None -> in_try s0 = false ->
   (forall i, F i = NoFault) ->
   (k = Object -> load_ok pl = true) ->
   items pl = (pre ++ None :: post)%list -> Forall (fun i => i <> None) pre ->
   let r := run_ops nm F (inplace_ops k pl src) n s0 in
-  outc r = Raised EFormat /\
-  lookup src (sd (final r)) = Some old /\
-  lookup (tmp_of nm s0 src) (sd s0) = None /\
-  lookup (tmp_of nm s0 src) (sd (final r)) <> None.
-Proof. exact format_error_leaves_temp. Qed.
-Print Assumptions C15_format_error_leaves_temp.
-
-(** ... and under any faults: if the main-line step that raised was a write, a formatting
-    step or the close of the temp file, the temp file is still there at the end. *)
-Theorem C15_late_failure_leaves_temp : forall nm F k pl src s0 n kk o,
-  fresh_namer nm -> lookup src (sd s0) <> None ->
-  stop (run_ops nm F (inplace_ops k pl src) n s0) = Some (kk, o) -> late o = true ->
-  lookup (tmp_of nm s0 src) (sd s0) = None /\
-  lookup (tmp_of nm s0 src) (sd (final (run_ops nm F (inplace_ops k pl src) n s0))) <> None.
-Proof. exact late_failure_leaves_temp. Qed.
-Print Assumptions C15_late_failure_leaves_temp.
-
-(** The part of "no temporary file is left" that does hold: when the step that raised is
-    opening or loading the source or creating the temp file, or is the rename and the remove
-    in move_temp_file's handler works, the directory is exactly what it was. *)
-Theorem C15_raise_leaves_no_temp_partial : forall nm F k pl src s0 n kk o,
-  fresh_namer nm -> lookup src (sd s0) <> None ->
-  stop (run_ops nm F (inplace_ops k pl src) n s0) = Some (kk, o) ->
-  early o = true \/ ((exists d, o = Replace d) /\ F (S kk) = NoFault) ->
-  deq (sd (final (run_ops nm F (inplace_ops k pl src) n s0))) (sd s0).
-Proof. exact raise_no_temp_partial. Qed.
-Print Assumptions C15_raise_leaves_no_temp_partial.
+  outc r = Raised EFormat /\ deq (sd (final r)) (sd s0).
+Proof. exact format_error_clean. Qed.
+Print Assumptions C15_format_error_leaves_nothing.
 
 (** Same-file detection: no out, out == in, and out == the directory of in all take the
     in-place path; any other out file is written directly. *)
@@ -135,6 +127,7 @@ Print Assumptions C15_same_file_routed_in_place.
 
 (** When out is another file, nothing but that file ever changes (the source is only read). *)
 Theorem C15_other_out_only_out_changes : forall nm F k pl src out s0 n,
+  in_try s0 = false ->
   Forall (fun s => nrep s = nrep s0 /\ forall q, q <> out -> lookup q (sd s) = lookup q (sd s0))
          (all_states (run_ops nm F (direct_ops k pl src out) n s0)).
 Proof. exact direct_spec. Qed.
@@ -144,18 +137,25 @@ Print Assumptions C15_other_out_only_out_changes.
     names that are not files allowed) there is a j such that the directory is the original one
     with the first j files completely rewritten and all later ones untouched - give or take
     one extra name t that is not an entry of that directory (the temp file of the rewrite in
-    progress, or the one a failure left).  A completed run leaves exactly [apply_new paths]. *)
+    progress, or what a kill left).  A completed run leaves exactly [apply_new paths]; a run
+    that RAISES (same two exemptions) leaves exactly [apply_new] of the first j paths for some
+    j: files before the failing one complete-new, the failing one and all later ones
+    complete-old, no extra entry. *)
 Theorem C15_list_files_all_or_nothing_in_order : forall nm F xf k m,
-  fresh_namer nm -> forall paths, inplace_mode m paths -> forall n s0,
-  Forall (snap_ok xf k paths (sd s0)) (all_states (run_files nm F xf k m paths n s0)) /\
-  (outc (run_files nm F xf k m paths n s0) = Done ->
-   deq (sd (final (run_files nm F xf k m paths n s0))) (apply_new xf k paths (sd s0))).
+  fresh_namer nm -> forall paths, inplace_mode m paths -> forall n s0, in_try s0 = false ->
+  let r := run_files nm F xf k m paths n s0 in
+  Forall (snap_ok xf k paths (sd s0)) (all_states r) /\
+  (outc r = Done -> deq (sd (final r)) (apply_new xf k paths (sd s0))) /\
+  (forall e, outc r = Raised e -> rmfail r = false ->
+     (forall kk, stop r <> Some (kk, CloseSrc)) ->
+     exists j, j <= List.length paths /\
+               deq (sd (final r)) (apply_new xf k (firstn j paths) (sd s0))).
 Proof. exact loop_spec. Qed.
 Print Assumptions C15_list_files_all_or_nothing_in_order.
 
 (** Files not matched by in are never touched. *)
 Theorem C15_unmatched_untouched : forall nm F xf k m paths n s0,
-  fresh_namer nm -> inplace_mode m paths ->
+  fresh_namer nm -> inplace_mode m paths -> in_try s0 = false ->
   Forall (fun s => exists t, forall q, ~ In q paths -> q <> t ->
                                        lookup q (sd s) = lookup q (sd s0))
          (all_states (run_files nm F xf k m paths n s0)).
@@ -176,12 +176,18 @@ Example C15_success_nonvacuous :
   List.length (hist r) = 7.
 Proof. vm_compute. repeat split. Qed.
 
-(* the second write raises: the error propagates, source intact, temp (first chunk) left *)
+(* the second write raises: close-w, remove, close-src run; the write's error propagates and
+   the directory is the original one.  If that remove fails too the temp (first chunk) stays,
+   if the process dies at the remove likewise - neither is "raised with a working clean-up" *)
 Example C15_write_fault_nonvacuous :
   let r := run_ops default_namer (fault_fun [(3, Raise)]) (inplace_ops Stream ex_plan "a.txt") 0 (init ex_dir) in
-  outc r = Raised (EInj 3) /\ stop r = Some (3, Write "A") /\
-  lookup "a.txt" (sd (final r)) = Some "old A" /\
-  lookup (tmp_of default_namer (init ex_dir) "a.txt") (sd (final r)) = Some "new ".
+  let r2 := run_ops default_namer (fault_fun [(3, Raise); (5, Raise)]) (inplace_ops Stream ex_plan "a.txt") 0 (init ex_dir) in
+  let r3 := run_ops default_namer (fault_fun [(3, Raise); (5, Crash)]) (inplace_ops Stream ex_plan "a.txt") 0 (init ex_dir) in
+  outc r = Raised (EInj 3) /\ stop r = Some (3, Write "A") /\ rmfail r = false /\
+  sd (final r) = ex_dir /\ List.length (hist r) = 7 /\
+  outc r2 = Raised (EInj 3) /\ rmfail r2 = true /\
+  lookup (tmp_of default_namer (init ex_dir) "a.txt") (sd (final r2)) = Some "new " /\
+  outc r3 = Crashed /\ List.length (sd (final r3)) = 4.
 Proof. vm_compute. repeat split. Qed.
 
 (* the rename raises: the handler removes the temp, the directory is as it was;
@@ -189,8 +195,8 @@ Proof. vm_compute. repeat split. Qed.
 Example C15_rename_fault_nonvacuous :
   let r := run_ops default_namer (fault_fun [(6, Raise)]) (inplace_ops Stream ex_plan "a.txt") 0 (init ex_dir) in
   let r2 := run_ops default_namer (fault_fun [(6, Raise); (7, Raise)]) (inplace_ops Stream ex_plan "a.txt") 0 (init ex_dir) in
-  outc r = Raised (EInj 6) /\ sd (final r) = ex_dir /\ List.length (hist r) = 8 /\
-  outc r2 = Raised (EInj 6) /\ List.length (sd (final r2)) = 4.
+  outc r = Raised (EInj 6) /\ sd (final r) = ex_dir /\ List.length (hist r) = 8 /\ rmfail r = false /\
+  outc r2 = Raised (EInj 6) /\ List.length (sd (final r2)) = 4 /\ rmfail r2 = true.
 Proof. vm_compute. repeat split. Qed.
 
 (* a kill between the close of the temp and the rename: source old, complete temp on disk *)
@@ -208,10 +214,11 @@ Example C15_loop_nonvacuous :
   inplace_mode NoOut ["a.txt"; "missing"; "b.txt"].
 Proof. vm_compute. repeat split. intros p _. now left. Qed.
 
-(* object rewriter: payload does not parse -> nothing created; formatting fails -> temp left *)
+(* object rewriter: payload does not parse -> nothing created; formatting fails -> temp
+   created, closed, removed: the directory is the original one *)
 Example C15_object_nonvacuous :
   let r := run_ops default_namer (fun _ => NoFault) (inplace_ops Object (mkplan false []) "a.txt") 0 (init ex_dir) in
   let r2 := run_ops default_namer (fun _ => NoFault) (inplace_ops Object (mkplan true [None]) "a.txt") 0 (init ex_dir) in
   outc r = Raised ELoad /\ sd (final r) = ex_dir /\
-  outc r2 = Raised EFormat /\ List.length (sd (final r2)) = 4.
+  outc r2 = Raised EFormat /\ sd (final r2) = ex_dir /\ List.length (hist r2) = 5.
 Proof. vm_compute. repeat split. Qed.
